@@ -67,6 +67,11 @@ def plans(tier, seed):
                            fraction=0.5 if quick else 1.0)
         w["equiv_group"] = "queue"; w["sample_seed"] = seed
         worlds.append(w)
+        # the same queue cover with the event derived by a getEvent policy from a by-value movable argument
+        w = props_dq.world("qg_%s" % cname(c), obj=1, key=[1, 3, 2][i % 3], arg=0, mode=3, threading=(i + 1) % 3, fill=fills[(i + 2) % 4], compiler=c[0], std=c[1], opt=c[2],
+                           fraction=0.3 if quick else 1.0)
+        w["equiv_group"] = "queue-getevent"; w["sample_seed"] = seed
+        worlds.append(w)
     out.append({"interp": "harness/dq_interp.cpp", "trace_module": "TraceDQ",
                 "models": [{"module": "DQImpl", "tag": "queue", "invariants": props_dq.INV,
                             "constants": props_dq.consts(nodes=1, enq=3, depth=5, ops={"al", "rl"} | props_dq.QOPS, nest={"rl", "nq", "po", "tk", "eq"})}],
